@@ -321,5 +321,5 @@ def extra_coverage(tier):
                                       % len(sweep_configs())]}
 
 
-PARTS = [Part("fft", check_case, {"quick": 16000, "thorough": 400000}, strategy=st_case),
+PARTS = [Part("fft", check_case, {"quick": 32000, "thorough": 400000}, strategy=st_case),
          make_sweep("lengths", sweep_configs, check_case)]
